@@ -456,6 +456,10 @@ class Domain:
             last_size - origin_last_coordinate,
         )
 
+        # largest index of a state inside the domain: the bound of the enumeration (a pairing need not be increasing along
+        # a line, e.g. Rosenberg-Strong decreases in the last coordinate inside a shell, so this can exceed every frontier index)
+        self.max_inside_index = 0
+
         for ks in lazy_indices_product(all_sizes):
             ks_shifted = tuple(ki - origin_last_coordinate for ki in ks)
             outside_states = []
@@ -469,6 +473,10 @@ class Domain:
                 all_states.append(pairing.pair(state_increment))
 
             if not all(outside_states):
+                self.max_inside_index = max(
+                    self.max_inside_index,
+                    max(x for x, y in zip(all_states, outside_states) if not y),
+                )
                 frontier_left_index = next(
                     x for x, y in zip(all_states, outside_states) if not y
                 )
@@ -497,7 +505,9 @@ class StatesManager:
         """
         frontier_states = domain.compute_total_number_of_states_and_frontier()
         self.frontier_states_indices = frontier_states
-        self.max_frontier_indices = max(frontier_states)
+        self.max_frontier_indices = max(
+            max(frontier_states), getattr(domain, "max_inside_index", 0)
+        )
         self.domain = domain
         self.origin_coordinates = grid.origin_coordinate
         self.grid = grid
